@@ -159,6 +159,7 @@ func (db *DB) collectGarbage() (collectedCount uint64, done bool, err error) {
 	// without batchMu lock, call chunkinfo to remove chunks
 	for _, item := range candidates {
 		addr := boson.NewAddress(item.Address)
+		verifhook.PointArg("localstore.gc.candidate", addr) // no-op unless built with tag verif
 
 		if db.discover.IsDiscover(addr) {
 			db.discover.DelDiscover(addr)
